@@ -434,7 +434,31 @@ impl Property for P {
             any::<bool>(),
         )
             .prop_map(|(par, spec, prior)| Case::Text { par, spec, prior });
-        prop_oneof![3 => frag_case, 2 => text_case].boxed()
+        // the short-last-line threshold: line width = k * fraction, last
+        // fragment k-1, k or k+1 wide (the boundary of `width < target/fraction`)
+        let boundary_case = (
+            1usize..=200,
+            1u64..=12,
+            0u64..3,
+            prop::collection::vec((0u64..=12, 0u64..=2), 0..=4),
+            prop_oneof![Just(PenSpec::DEFAULT), gen::penalties_moderate()],
+            0u64..=8,
+        )
+            .prop_map(|(fraction, k, d, body, mut pen, slack)| {
+                pen.fraction = fraction;
+                let lw = k * fraction as u64;
+                // a first fragment that nearly fills a line, a few small ones,
+                // and a last fragment right at the threshold
+                let mut frags: Vec<(u64, u64, u64)> = vec![(lw.saturating_sub(slack), 1, 0)];
+                frags.extend(body.into_iter().map(|(w, ws)| (w, ws, 0)));
+                frags.push(((k + d).saturating_sub(1), 0, 0));
+                Case::Frags {
+                    frags,
+                    widths: vec![lw],
+                    pen,
+                }
+            });
+        prop_oneof![60 => frag_case, 40 => text_case, 3 => boundary_case].boxed()
     }
     fn check(c: &Case, _m: Mode) -> Outcome {
         check(c)
